@@ -193,6 +193,9 @@ def verify_function(eng, key, case_kinds=None, label_suffix=""):
             for i, cl in enumerate(c.get("ensures") or []):
                 g = eng.eval_spec(cl, s, {"result": result})
                 eng.emit(s, "post", "ensures[%d]" % i, g)
+            for i, cl in enumerate(c.get("ghost_ensures") or []):
+                g = eng.eval_spec(cl, s, {"result": result})
+                eng.emit(s, "post", "ghost_ensures[%d]" % i, g)
         elif tag == "raise":
             if payload in raises:
                 g = eng.eval_spec("old(%s)" % raises[payload], s, {})
@@ -203,6 +206,8 @@ def verify_function(eng, key, case_kinds=None, label_suffix=""):
                 eng.emit(s, "defined", "no-%s" % payload, FALSE)
         else:
             raise Unsupported("%s escapes the function body" % tag)
+    if not outs:
+        raise Unsupported("%s: no feasible path reaches the end of the function (contradictory contract?)" % key)
     return nret
 
 
